@@ -35,6 +35,13 @@ deriving Repr, DecidableEq
 def connect (i : ConnIn) : ConnOut :=
   if i.r1 && i.r2 then { m1 := some i.d2, m2 := some i.d1 } else { m1 := none, m2 := none }
 
+/-- `validate_arguments` of a target method: the manager makes a transaction runnable only if
+    every method it calls accepts the argument the transaction would pass (manager.py:
+    `validate_args_for_method`).  A target is callable iff ready ∧ validator(argument it would
+    receive).  `v1`/`v2` are the validators of `method1`/`method2` (`fun _ => true` = none). -/
+def connectV (v1 v2 : Nat → Bool) (i : ConnIn) : ConnOut :=
+  connect { i with r1 := i.r1 && v1 i.d2, r2 := i.r2 && v2 i.d1 }
+
 /-! ## CrossbarConnectTrans (connectors.py:428-435)
 One `ConnectTrans` per pair `(i, j)`.  Two of them conflict iff they share a method (all target
 methods are exclusive).  The eager scheduler (schedulers.py:38-43) walks the transactions in
@@ -57,22 +64,32 @@ def resultAt (t : List (Bool × Nat)) (k : Nat) : Option Nat := (t[k]?).map (·.
 def clash (acc : List (Nat × Nat)) (p : Nat × Nat) : Bool :=
   acc.any (fun q => q.1 == p.1 || q.2 == p.2)
 
+def optAll (v : Nat → Bool) : Option Nat → Bool
+  | some x => v x
+  | none => false
+
+/-- the connecting transaction of pair `p` is runnable: both methods ready and each accepts
+    (`validate_arguments`) the other's result -/
+def pairRunnable (v1 v2 : Nat → Bool) (i : XIn) (p : Nat × Nat) : Bool :=
+  readyAt i.t1 p.1 && readyAt i.t2 p.2 && optAll v1 (resultAt i.t2 p.2) && optAll v2 (resultAt i.t1 p.1)
+
 /-- eager scheduler over the remaining `order`, `acc` = pairs granted so far -/
-def grant (i : XIn) : List (Nat × Nat) → List (Nat × Nat) → List (Nat × Nat)
+def grant (rn : Nat × Nat → Bool) : List (Nat × Nat) → List (Nat × Nat) → List (Nat × Nat)
   | [], acc => acc
   | p :: rest, acc =>
-    if readyAt i.t1 p.1 && readyAt i.t2 p.2 && !clash acc p then grant i rest (acc ++ [p])
-    else grant i rest acc
+    if rn p && !clash acc p then grant rn rest (acc ++ [p])
+    else grant rn rest acc
 
 /-- the pairs whose connecting transaction runs in this cycle -/
-def running (order : List (Nat × Nat)) (i : XIn) : List (Nat × Nat) := grant i order []
+def running (v1 v2 : Nat → Bool) (order : List (Nat × Nat)) (i : XIn) : List (Nat × Nat) :=
+  grant (pairRunnable v1 v2 i) order []
 
 /-- argument `methods1[a]` is called with: the result of its partner -/
-def xArg1 (order : List (Nat × Nat)) (i : XIn) (a : Nat) : Option Nat :=
-  ((running order i).find? (fun p => p.1 == a)).bind (fun p => resultAt i.t2 p.2)
+def xArg1 (v1 v2 : Nat → Bool) (order : List (Nat × Nat)) (i : XIn) (a : Nat) : Option Nat :=
+  ((running v1 v2 order i).find? (fun p => p.1 == a)).bind (fun p => resultAt i.t2 p.2)
 
-def xArg2 (order : List (Nat × Nat)) (i : XIn) (b : Nat) : Option Nat :=
-  ((running order i).find? (fun p => p.2 == b)).bind (fun p => resultAt i.t1 p.1)
+def xArg2 (v1 v2 : Nat → Bool) (order : List (Nat × Nat)) (i : XIn) (b : Nat) : Option Nat :=
+  ((running v1 v2 order i).find? (fun p => p.2 == b)).bind (fun p => resultAt i.t1 p.1)
 
 /-! ## single-target transformers -/
 
@@ -222,6 +239,30 @@ def collectorRun (order : List Nat) (s : CState) : List CIn → CState × List C
     let (s', o) := collectorStep order s i
     let (s'', os) := collectorRun order s' is
     (s'', o :: os)
+
+/-! ## targets with `validate_arguments`
+The transformer's transaction is runnable only if the target accepts the argument it would receive,
+so a target is *callable* iff ready ∧ valid(argument).  A call under `m.If` (plain filter) is
+validated only when enabled (`~en | valid`, body.py `_validate_arguments`). -/
+
+def mapVStep (valid : Nat → Bool) (ifun ofun : Nat → Nat) (i : UIn) : UOut :=
+  mapStep ifun ofun { i with trdy := i.trdy && (match i.call with | some a => valid (ifun a) | none => true) }
+
+def filterVStep (valid : Nat → Bool) (useCond : Bool) (cond : Nat → Nat) (dflt : Nat) (i : UIn) : UOut :=
+  filterStep useCond cond dflt
+    { i with trdy := i.trdy && (match i.call with
+        | some a => !condHolds (cond a) || valid a
+        | none => true) }
+
+/-- product / try-product: every target is offered the same argument -/
+def validTgts (valid : Nat → Bool) (i : PIn) : PIn :=
+  { i with tgts := i.tgts.map (fun t => (t.1 && (match i.call with | some a => valid a | none => true), t.2)) }
+
+/-- nonexclusive wrapper: the target is offered the combined argument.  Compared with the real circuit
+    for a single caller only: with ≥ 2 callers the combined argument depends on which callers run, which
+    depends on the validator (the real circuit then never runs a target that rejects zero). -/
+def nonexVStep (valid : Nat → Bool) (i : NIn) : NOut :=
+  nonexStep { i with trdy := i.trdy && (!i.calls.any (·.isSome) || valid (orAll (i.calls.filterMap id))) }
 
 /-! ## competing callers of the targets
 A target method may also be called by another transaction (in the correspondence: an
